@@ -23,7 +23,8 @@ method nets: `(net <writer> (<member>*))`, `(mnet <writer> (<member>*))` — con
 of the adjacency over value signals (+ constants) resp. method ports; writer of a value net = its
 constant, a member written by an update block, a top-level input port or an output port of a placeholder (`_resolve_value_connections`
 for plain signals); writer of a method net = its callee port. `none` / `multi` if absent / ambiguous.
-Nets are computed here from the sorted dump (derived observable, not part of the theorems).
+Nets are computed here from the sorted dump (derived observable, not part of the theorems); so is
+`(dbuf <sig>)`: the signal is written by an `update_ff` block (`_dsl.needs_double_buffer`).
 -/
 namespace PV.Driver.Meta
 open PV PV.Meta
@@ -160,8 +161,15 @@ def netsOf (M : Meta) : List String := Id.run do
           out := s!"({tag} {w} ({" ".intercalate net}))" :: out
   return sortDedup out
 
+/-- signals written by an `update_ff` block (`needs_double_buffer`, set by `_elaborate_read_write_func`) -/
+def dbufOf (M : Meta) : List String :=
+  let ffs := M.filterMap fun e => match e with | .ff b => some b | _ => none
+  sortDedup (M.filterMap fun e => match e with
+    | .write b s => if ffs.contains b then some s!"(dbuf {showSig s})" else none
+    | _ => none)
+
 def dump (M : Meta) : String :=
-  "(" ++ " ".intercalate (sortDedup (M.map showEntry) ++ netsOf M) ++ ")"
+  "(" ++ " ".intercalate (sortDedup (M.map showEntry) ++ netsOf M ++ dbufOf M) ++ ")"
 
 def handle (args : List Sexp) : Option String :=
   match args with
